@@ -194,6 +194,10 @@ _HASH_TRANSITIONS: dict[tuple[HashUpdateCause, FileState, bool], tuple[FileState
     (HashUpdateCause.FAILED, FileState.OUTDATED, True): (FileState.OUTDATED, None),
     (HashUpdateCause.FAILED, FileState.PLANNED, True): (FileState.OUTDATED, None),
     (HashUpdateCause.FAILED, FileState.CONFIRMED, False): (FileState.MISSING, "deleted"),
+    # Two consumers of the same static file can both find that it vanished (or came back):
+    # the first report already moved the file to MISSING, the second must not be unexpected.
+    (HashUpdateCause.FAILED, FileState.MISSING, False): (FileState.MISSING, None),
+    (HashUpdateCause.FAILED, FileState.MISSING, True): (FileState.CONFIRMED, None),
     (HashUpdateCause.FAILED, FileState.BUILT, False): (FileState.PLANNED, "deleted"),
     (HashUpdateCause.FAILED, FileState.OUTDATED, False): (FileState.PLANNED, None),
     (HashUpdateCause.FAILED, FileState.PLANNED, False): (FileState.PLANNED, None),
